@@ -337,6 +337,22 @@ def run(ck):
                         ck.check(set(fl) <= set(row) and fl[0] == "epoch", "C17.R3", cls + ":csv header within row keys", m.site(), "CSV header fields %s are not all produced by a row %s" % (fl, row))
                         want = ["epoch"] + ["%s_%s" % (o, s) for o in want_keys for s in ("mean", "variance", "std_error")]
                         ck.check(fl == want, "C17.R3", cls + ":csv header lists mean/variance/std_error per observable", m.site(), "CSV header is %s, expected %s" % (fl, want))
+                        # "the CSV log agrees with the values computed at those epochs": the column <observable>_<statistic> holds that
+                        # statistic of that observable (by value - however the row was assembled)
+                        rowd = None
+                        for w in csvw:
+                            for nme, a, k in w.attrs.get("__calls__", []):
+                                if nme == "writerow" and a and isinstance(a[0], VDict) and a[0].obj.items is not None and not a[0].obj.extra_unknown:
+                                    rowd = a[0].obj.items
+                        for k_, v_ in (rowd or {}).items():
+                            hit = [(o, s_) for o in want_keys for s_ in ("mean", "variance", "std_error", "num_samples") if k_ == "%s_%s" % (o, s_)]
+                            vt_ = num_term(v_)
+                            if not hit or k_ not in fl:
+                                continue
+                            wt_ = T.sym("%s.%s" % hit[0])
+                            ck.check((vt_ == wt_) if vt_ is not None else None, "C17.R3", cls + ":csv column %s holds that statistic" % k_, m.site(),
+                                     "the CSV column '%s' is written with %s, not with the %s of %s: the columns of the second and later observables are shifted" % (k_, vt_, hit[0][1], hit[0][0]),
+                                     key="C17.R3|ObservableEvaluator|csv column value")
     # keys produced by the real System.statistics (sibling of the stub above)
     with ck.guard("C17.R3", "System.statistics keys"):
         def ths(it):
